@@ -79,7 +79,7 @@ Definition enc_M (r : res run_out) : data :=
   match r with
   | Ok o =>
       let '(closing_msgs, counts) := closing_M o in
-      DList [DStr "Ok"; enc_strs (map msg_of (o_db o)); enc_strs (map msg_of (o_parse o)); enc_strs (map msg_of (o_inc o));
+      DList [DStr "Ok"; enc_strs (map msg_of (o_db o)); enc_strs (map msg_of (o_parse o)); enc_strs (map msg_of (o_inc o ++ o_forced o));
              enc_strs closing_msgs; of_list of_nat counts]
   | Err e => DList [DStr "Err"; DStr e]
   end.
